@@ -3,6 +3,7 @@ package main
 import (
 	"bufio"
 	"bytes"
+	"context"
 	"encoding/json"
 	"fmt"
 	"io"
@@ -301,11 +302,31 @@ func c20GCSMix(r *Run, cfg *Stream) {
 			r.Fail("malformed-response", "", "%s -> HTTP %d: %s", q, resp.Status, msg)
 		}
 	}
+	// the requests of one task may have their contexts cancelled (the client goes away), the
+	// cancellation becoming visible inside one of the ctx.Err() calls the code makes
+	cancelTask := -1
+	if cfg.Intn(3) == 2 {
+		cancelTask = cfg.Intn(len(roles))
+	}
+	fsCancel := r.T.S("fault")
 	for ti, role := range roles {
 		role, ti := role, ti
 		s.Go(fmt.Sprintf("t%d.role%d", ti, role), func() {
 			for i := 0; i < 3 && !r.Failed(); i++ {
 				var q HReq
+				if ti == cancelTask {
+					inner, c := context.WithCancel(context.Background())
+					defer c()
+					q.Ctx = &simCtx{Context: inner, cancel: c, atErr: func() bool {
+						if fsCancel.Intn(4) != 3 {
+							return false
+						}
+						r.Fault("ctx_cancel_at_err")
+						r.Probe("c20.request_cancelled")
+						return true
+					}}
+				}
+				ctx := q.Ctx
 				switch role {
 				case 0: // listing while deleting
 					q = HReq{Method: "GET", Path: "/storage/v1/b/scr/o", Query: url.Values{"delimiter": {"/"}, "maxResults": {"2"}}}
@@ -331,6 +352,7 @@ func c20GCSMix(r *Run, cfg *Stream) {
 						q = HReq{Method: "GET", Path: "/storage/v1/b/scr"}
 					}
 				}
+				q.Ctx = ctx
 				chk(q, w.Do(q))
 			}
 		})
